@@ -55,8 +55,8 @@ func (k *c01K) body(fam, desc, decls, pre, core, post string, globals ...string)
 }
 
 // c01EnumerateK returns the K programs; level 1 = quick, 2 = thorough (more enclosing
-// skeletons). Replay always searches level 2; families are therefore suffixed with the level
-// when the index depends on it.
+// skeletons, a superset). A K program is identified by (family, description); the index is
+// informational and depends on the level.
 func c01EnumerateK(level int) []c01Prog {
 	k := &c01K{level: level}
 	k.rangeInt()
@@ -80,12 +80,8 @@ func c01EnumerateK(level int) []c01Prog {
 	k.conversions()
 	k.pointers()
 	k.evalOrder()
-	if level < 2 {
-		return k.out
-	}
-	for i := range k.out {
-		k.out[i].Family += "+"
-	}
+	k.loopVar()
+	k.noReturn()
 	return k.out
 }
 
@@ -214,4 +210,83 @@ func (k *c01K) rangeFunc() {
 	k.add(fam, "panic in body recovered by caller's defer", its+"func f§(a, b int) (r int) {\n\tdefer func() {\n\t\tif e := recover(); e != nil {\n\t\t\tr = -e.(int)\n\t\t}\n\t}()\n\tfor i := range it§(3) {\n\t\tif i == a {\n\t\t\tpanic(i + 40)\n\t\t}\n\t\tr += i + 1\n\t}\n\treturn\n}\n")
 	k.add(fam, "runtime panic in body unrecovered", its+"func f§(a, b int) (r int) {\n\tfor i := range it§(3) {\n\t\tr += 10 / (i - a)\n\t\tobs(r)\n\t}\n\treturn\n}\n")
 	k.add(fam, "iterator as parameter", its+"func use§(seq func(func(int) bool), lim int) (n int) {\n\tfor v := range seq {\n\t\tif v >= lim {\n\t\t\treturn n\n\t\t}\n\t\tn += v + 1\n\t}\n\treturn -n\n}\nfunc f§(a, b int) int {\n\treturn use§(it§(a+2), b)\n}\n")
+}
+
+// loopVar: every program exists twice, in a go1.26 file (per-iteration loop variables) and in a
+// go1.21 file (one variable per loop).
+func (k *c01K) loopVar() {
+	fam := "K:loopvar"
+	cores := []struct{ name, core string }{
+		{"closures over 3-clause loop variable", "var fs []func() int\nfor i := 0; i < 3; i++ {\n\tfs = append(fs, func() int {\n\t\ti += a\n\t\treturn i\n\t})\n}\nfor _, f := range fs {\n\tr = r*10 + f()\n}\n"},
+		{"closures over range variables", "var fs []func() int\nfor i, v := range []int{a, b, 7} {\n\tfs = append(fs, func() int { return i*100 + v })\n}\nfor _, f := range fs {\n\tr = r*3 + f()\n}\n"},
+		{"addresses of loop variables", "var ps []*int\nfor i := 0; i < 3; i++ {\n\tps = append(ps, &i)\n}\nfor _, v := range []int{a, b} {\n\tps = append(ps, &v)\n}\nfor _, p := range ps {\n\tr = r*10 + *p\n}\n"},
+		{"deferred closures in loop", "func() {\n\tfor i := 0; i < 3; i++ {\n\t\tdefer func() {\n\t\t\tobs(i + a)\n\t\t\tr += i\n\t\t}()\n\t}\n}()\n"},
+		{"loop variable changed through closure inside body", "n := 0\nfor i := 0; i < 6; i++ {\n\tbump := func() { i += b }\n\tif b > 0 {\n\t\tbump()\n\t}\n\tn++\n\tobs(i)\n}\nr = n\n"},
+		{"range string and map variables captured", "var fs []func() int\nfor i, c := range \"ab\" {\n\tfs = append(fs, func() int { return i + int(c) })\n}\nfor key, v := range map[int]int{a: b} {\n\tfs = append(fs, func() int { return key*10 + v })\n}\nfor _, f := range fs {\n\tr = r*2 + f()\n}\n"},
+		{"continue and post statement with captured variable", "var fs []func() int\nfor i := 0; i < 4; i++ {\n\tif i == a {\n\t\tcontinue\n\t}\n\tfs = append(fs, func() int { return i })\n}\nfor _, f := range fs {\n\tr = r*10 + f()\n}\n"},
+	}
+	for _, c := range cores {
+		for _, old := range []bool{false, true} {
+			n := len(k.out)
+			name := c.name + " go1.26"
+			if old {
+				name = c.name + " go1.21"
+			}
+			k.body(fam, name, "", "", c.core, "")
+			for i := n; i < len(k.out); i++ {
+				k.out[i].Go121 = old
+			}
+		}
+	}
+}
+
+// noReturn: callees that never return, return on some inputs only, or return although a callee
+// of theirs never does (recover). Built also in the buildir configuration, where the builder
+// puts a synthetic panic after calls of functions ctrlflow classifies as not returning.
+func (k *c01K) noReturn() {
+	fam := "K:noreturn"
+	decls := c01Lines(
+		"func die§(x int) {",
+		"\tobs(x)",
+		"\tpanic(x)",
+		"}",
+		"func maybe§(x int) {",
+		"\tif x > 0 {",
+		"\t\tpanic(\"positive\")",
+		"\t}",
+		"\tobs(x)",
+		"}",
+		"func wrap§(x int) {",
+		"\tobs(70)",
+		"\tdie§(x)",
+		"}",
+		"func safe§(x int) {",
+		"\tdefer func() {",
+		"\t\tif recover() != nil {",
+		"\t\t\tobs(71)",
+		"\t\t}",
+		"\t}()",
+		"\tdie§(x)",
+		"}",
+		"func spin§(x int) {",
+		"\tfor {",
+		"\t\tx++",
+		"\t\tif x > 100 {",
+		"\t\t\tpanic(x)",
+		"\t\t}",
+		"\t}",
+		"}",
+	)
+	cores := []struct{ name, core string }{
+		{"call of a function that always panics", "r = a\nif b > 0 {\n\tdie§(b)\n\tr = 100\n}\nr += 5\n"},
+		{"call of a function that panics on some inputs", "maybe§(a)\nr = 1\nmaybe§(b)\nr = 2\n"},
+		{"call of a wrapper of a function that always panics", "r = 1\nif a > b {\n\twrap§(a)\n}\nr = 2\n"},
+		{"callee recovers from its no-return callee and returns", "r = 1\nsafe§(a)\nr = 2\nobs(r)\n"},
+		{"caller recovers after no-return call", "defer func() {\n\tif e := recover(); e != nil {\n\t\tr = 50 + e.(int)\n\t}\n}()\nif a > 0 {\n\tdie§(a)\n}\nr = b\n"},
+		{"endless loop left by panic", "defer func() {\n\tr = recover().(int)\n}()\nspin§(a * 40)\n"},
+		{"no-return call in loop and switch", "for i := 0; i < 3; i++ {\n\tswitch {\n\tcase i == a:\n\t\tsafe§(i)\n\t\tr += 10\n\tcase i == b:\n\t\tfunc() {\n\t\t\tdefer func() { recover() }()\n\t\t\twrap§(i)\n\t\t}()\n\t\tr += 100\n\t}\n\tr++\n}\n"},
+	}
+	for _, c := range cores {
+		k.body(fam, c.name, decls, "", c.core, "")
+	}
 }
